@@ -111,7 +111,8 @@ fn run(sh: &mut Shard) {
         }
     }
     // two and three arguments
-    let two: &Vec<Expr> = if tier == Tier::Quick { &small } else { &big };
+    let _ = tier;
+    let two: &Vec<Expr> = &big;
     for b in BUILTINS {
         for x in two {
             for y in two {
